@@ -32,7 +32,8 @@ class Loop:
 class Rewrite:
     """literal text substitution inside the extracted item; `count` occurrences must exist."""
 
-    def __init__(self, old, new, count=1, rule="R?", why=""):
+    def __init__(self, old, new, count=1, rule="R?", why="", regex=False):
+        self.regex = regex
         self.old = old
         self.new = new
         self.count = count
